@@ -16061,9 +16061,19 @@ gcry_error_t CallasDonnerhackeFinneyShawThayerRFC4880::AsymmetricVerifyDSA
 	if (ret)
 		return ret;
 	qbits = gcry_mpi_get_nbits(q);
-	gcry_mpi_release(q);
 	if (((in.size() * 8) < qbits) || (qbits < 160))
+	{
+		gcry_mpi_release(q);
 		return gcry_error(GPG_ERR_BAD_PUBKEY); // error: q-length out of spec
+	}
+	// Some versions of libgcrypt abort, if s has no inverse modulo q; this
+	// happens only for an invalid (non-prime) q or an out-of-range s.
+	gcry_mpi_t w = gcry_mpi_new(2048);
+	int s_invertible = gcry_mpi_invm(w, s, q);
+	gcry_mpi_release(w);
+	gcry_mpi_release(q);
+	if (!s_invertible)
+		return gcry_error(GPG_ERR_BAD_SIGNATURE); // error: s not invertible
 	trunclen = in.size();
 	while ((trunclen * 8) > qbits)
 		--trunclen;
